@@ -118,7 +118,12 @@ func main() {
 			if strings.HasPrefix(rs.Panic, "driver process died") {
 				kind = "process-died"
 			}
-			viol(kind+":"+op+":"+v.r.Shape(), fmt.Sprintf("%s of %s: %s", op, v.r.Name, firstLine(rs.Panic)), v, extra)
+			cls := kind + ":" + op + ":" + v.r.Shape()
+			if kind == "panic" && strings.Contains(op, "type-corrupted") {
+				// hostile inputs: the shape is incidental, the panic message names the fault
+				cls = kind + ":" + op + ":" + firstLine(rs.Panic)
+			}
+			viol(cls, fmt.Sprintf("%s of %s: %s", op, v.r.Name, firstLine(rs.Panic)), v, extra)
 			return true
 		}
 		if strings.HasPrefix(rs.Err, "harness:") {
